@@ -493,7 +493,7 @@ static size_t safec_ftoa(out_fct_type out, const char *funcname, char *buffer,
                          unsigned int prec, unsigned int width,
                          unsigned int flags) {
     char buf[PRINTF_FTOA_BUFFER_SIZE];
-    size_t len = 0U, off = 0U;
+    size_t len = 0U, off = 0U, zeros = 0U, nsign = 0U;
     double tmp;
     double diff = 0.0;
     unsigned long frac;
@@ -529,9 +529,9 @@ static size_t safec_ftoa(out_fct_type out, const char *funcname, char *buffer,
 #endif // PRINTF_SUPPORT_EXPONENTIAL
     }
 
-    // test for negative
+    // test for negative, the negative zero included
     negative = false;
-    if (value < 0) {
+    if (signbit(value)) {
         negative = true;
         value = 0 - value;
     }
@@ -603,18 +603,8 @@ static size_t safec_ftoa(out_fct_type out, const char *funcname, char *buffer,
         }
     }
 
-    // pad leading zeros
-    if (!(flags & FLAGS_LEFT) && (flags & FLAGS_ZEROPAD)) {
-        if (width && (negative || (flags & (FLAGS_PLUS | FLAGS_SPACE)))) {
-            width--;
-        }
-        while ((len < width) && (len < PRINTF_FTOA_BUFFER_SIZE)) {
-            buf[len++] = '0';
-        }
-    }
-
-    // strip leading zeros and dots (without a fraction the zeros are digits of
-    // the whole part)
+    // strip the trailing zeros of the fraction and a dot left alone (without a
+    // fraction the zeros are digits of the whole part)
     if ((flags & FLAGS_ADAPT_EXP) && !(flags & FLAGS_HASH) && prec > 0U) {
         size_t olen = len;
         while (buf[off] == '0') {
@@ -627,21 +617,43 @@ static size_t safec_ftoa(out_fct_type out, const char *funcname, char *buffer,
             off++;
             len--;
         }
-    }
-
-    // the digits are at buf[off..off+len) after the stripping above
-    if (off + len < PRINTF_FTOA_BUFFER_SIZE) {
-        if (negative) {
-            buf[off + len++] = '-';
-        } else if (flags & FLAGS_PLUS) {
-            buf[off + len++] = '+'; // ignore the space if the '+' exists
-        } else if (flags & FLAGS_SPACE) {
-            buf[off + len++] = ' ';
+        if (off) { // what is left moves to the front, the padding follows it
+            memmove(buf, &buf[off], len);
+            off = 0U;
         }
     }
 
-    return safec_out_rev(out, buffer, idx, maxlen, &buf[off], len, width,
-                         flags);
+    // pad leading zeros; those that have no room in buf are counted and
+    // emitted directly
+    if (!(flags & FLAGS_LEFT) && (flags & FLAGS_ZEROPAD)) {
+        if (width && (negative || (flags & (FLAGS_PLUS | FLAGS_SPACE)))) {
+            width--;
+        }
+        while ((len < width) && (len < PRINTF_FTOA_BUFFER_SIZE - 1U)) {
+            buf[len++] = '0';
+        }
+        if (len < width) {
+            zeros = width - len;
+        }
+    }
+
+    if (len < PRINTF_FTOA_BUFFER_SIZE) {
+        if (negative) {
+            buf[len++] = '-';
+            nsign = 1U;
+        } else if (flags & FLAGS_PLUS) {
+            buf[len++] = '+'; // ignore the space if the '+' exists
+            nsign = 1U;
+        } else if (flags & FLAGS_SPACE) {
+            buf[len++] = ' ';
+            nsign = 1U;
+        }
+    }
+
+    if (!zeros)
+        return safec_out_rev(out, buffer, idx, maxlen, buf, len, width, flags);
+    return safec_out_rev_zeros(out, buffer, idx, maxlen, buf, len, nsign, zeros,
+                               width, flags);
 }
 
 #ifdef PRINTF_SUPPORT_LONG_DOUBLE
@@ -851,7 +863,7 @@ static size_t safec_etoa(out_fct_type out, const char *funcname, char *buffer,
     }
 
     // determine the sign
-    negative = value < 0;
+    negative = signbit(value) != 0;
     if (negative) {
         value = -value;
     }
